@@ -410,9 +410,13 @@ func returnsTrueOnlyWhenAllZero(fn *ssa.Function) bool {
 				}
 				return true
 			case *ssa.BinOp:
-				if x.Op == token.EQL && eng.IntConst(0)(x.Y) {
+				if x.Op == token.EQL && (eng.IntConst(0)(x.Y) || eng.IntConst(0)(x.X)) {
+					val := x.X
+					if eng.IntConst(0)(x.X) {
+						val = x.Y
+					}
 					for _, f := range fields {
-						if eng.LoadNamed(f, nil)(x.X) {
+						if eng.LoadNamed(f, nil)(val) {
 							covered[f] = true
 							return true
 						}
